@@ -328,6 +328,42 @@ def delivery_sites(program, rep, prop, want):
         if cow:
             is_live = False
             plain_copy = True
+        if 'deliver' in want and isinstance(loop, ast.For):
+            # the delivery is a statement of its own (or the FIRST thing an
+            # expression evaluates): as the right operand of and / or, or in
+            # an arm of a conditional expression, it runs only when what was
+            # computed before lets it - e.g. `handled = handled or cb(...)`
+            # stops calling the remaining listeners once one returned True
+            par = {}
+            for p_ in ast.walk(loop):
+                for ch in ast.iter_child_nodes(p_):
+                    par[id(ch)] = p_
+            for c in ast.walk(loop):
+                if not (isinstance(c, ast.Call) and (any(isinstance(
+                        a, ast.Starred) for a in c.args) or any(
+                            k.arg is None for k in c.keywords))):
+                    continue
+                cur, cond_ctx = c, None
+                while id(cur) in par and par[id(cur)] is not loop:
+                    up = par[id(cur)]
+                    if isinstance(up, ast.BoolOp) and up.values[0] is not cur \
+                            and not any(x is cur for x in ast.walk(
+                                up.values[0])):
+                        cond_ctx = up
+                    if isinstance(up, ast.IfExp) and up.test is not cur \
+                            and not any(x is cur for x in ast.walk(up.test)):
+                        cond_ctx = up
+                    if isinstance(up, ast.stmt):
+                        break
+                    cur = up
+                if cond_ctx is not None:
+                    rep.bad(f'{prop}.deliver', site, cond_ctx,
+                            f'the callback call {norm(c)[:50]} is evaluated '
+                            f'only when the operands before it in '
+                            f'`{norm(cond_ctx)[:70]}` let it (short-circuit '
+                            'evaluation): once that happens the remaining '
+                            'listeners of the snapshot are not called',
+                            line=cond_ctx.lineno)
         if 'snapshot' in want:
             if is_live:
                 rep.bad(f'{prop}.snapshot', site, loop.iter,
